@@ -52,6 +52,13 @@ def cases(tier, seed):
     nchunks = 4 if tier == "quick" else 40
     for c in range(nchunks):
         yield {"kind": "logcdf", "chunk": c, "nchunks": nchunks, "seed": rnd.randrange(10**6)}
+    # the same statements under global switches they are rarely combined with (same values expected)
+    for env in ({"trace_mode": True}, {"debug": False}, {"trace_mode": True, "debug": False}):
+        for c in range(2 if tier == "quick" else 10):
+            yield {"kind": "logcdf", "chunk": c, "nchunks": 2 if tier == "quick" else 10, "env": env, "seed": rnd.randrange(10**6)}
+        for lik, nl, b in itertools.product(["laplace", "studentt", "beta", "bernoulli"], [20], [[], [2]]):
+            yield {"kind": "lik", "lik": lik, "num_locs": nl, "batch": b, "env": env, "seed": rnd.randrange(10**6)}
+        yield {"kind": "bernoulli", "batch": [2], "env": env, "seed": rnd.randrange(10**6)}
 
 
 _ST = {}
@@ -119,6 +126,24 @@ def run_case(case, ctx):
     from vf import util
 
     g = util.gen(case["seed"])
+    import contextlib
+
+    import torch
+
+    import gpytorch
+
+    env = case.get("env") or {}
+    with contextlib.ExitStack() as st:
+        if env.get("trace_mode"):
+            st.enter_context(gpytorch.settings.trace_mode(True))
+        if "debug" in env:
+            st.enter_context(gpytorch.settings.debug(env["debug"]))
+        if env.get("no_grad"):
+            st.enter_context(torch.no_grad())
+        return _dispatch(case, ctx, g)
+
+
+def _dispatch(case, ctx, g):
     return {"poly": _poly, "lik": _lik, "bernoulli": _bern, "logcdf": _logcdf, "truncation": _trunc, "softmax": _softmax}[case["kind"]](case, ctx, g)
 
 
